@@ -91,6 +91,8 @@ class Check:
             return fn()
         except AnalysisError as e:
             v = getattr(e, "violation", None)
+            if v is not None and len(v) > 4 and self.pid not in v[4]:
+                v = None            # the construct is a defect for other properties only: undecided here
             if v is not None:
                 # an analysis that cannot proceed BECAUSE the construct it met is itself the defect
                 self.violation(v[0], v[1], v[2], loc, key=v[3])
@@ -232,7 +234,11 @@ def run_property(pid, body, tier="quick", seed=0, root=None):
             except Exception as e:
                 check.notes.append("self-test could not run: %s" % e)
     except AnalysisError as e:
-        err = "%s" % e
+        v = getattr(e, "violation", None)
+        if v is not None and (len(v) <= 4 or pid in v[4]):
+            check.violation(v[0], v[1], v[2], "", key=v[3])
+        else:
+            err = "%s" % e
     except RecursionError:
         err = "recursion limit in analysis"
     except Exception as e:   # internal error: never a verdict
